@@ -229,7 +229,7 @@ def field_dims(part):
 
 
 def _field_point(idx):
-    (x,) = decode_point(idx, field_dims(P))
+    (x,) = decode_point(idx, field_dims)
     return N._untraced(_field_body)(x)
 
 
@@ -287,7 +287,7 @@ def auto_dims(part):
 
 
 def _auto_point(idx):
-    (mask, sk), cv = decode_point(idx, auto_dims(P))
+    (mask, sk), cv = decode_point(idx, auto_dims)
     return N._untraced(_auto_body)(P.front, mask, sk, cv)
 
 
@@ -315,7 +315,7 @@ def skip_dims(part):
 
 
 def _skip_point(idx):
-    (x,) = decode_point(idx, skip_dims(P))
+    (x,) = decode_point(idx, skip_dims)
     return N._untraced(_skip_body)(x)
 
 
@@ -368,7 +368,7 @@ def h2_dims(part):
 
 
 def _h2_point(idx):
-    x, which, as_bytes = decode_point(idx, h2_dims(P))
+    x, which, as_bytes = decode_point(idx, h2_dims)
     return N._untraced(_h2_body)(x, which, as_bytes)
 
 
